@@ -68,3 +68,20 @@ Definition wrap_mis_y (cs : list wrap_case) : list N :=
   flat_map (fun '(id, p, sm, q, impl, _) => if Bool.eqb (y_host_sees p sm q) impl then [] else [id]) cs.
 Definition wrap_mis_g (cs : list wrap_case) : list N :=
   flat_map (fun '(id, _, sm, q, _, ref) => if Bool.eqb (g_host_sees sm q) ref then [] else [id]) cs.
+
+Definition who_eqb (a b : who) : bool :=
+  match a, b with
+  | WScript, WScript | WHost, WHost | WBoth, WBoth | WFailBuild, WFailBuild | WFailCall, WFailCall | WNone, WNone => true
+  | _, _ => false
+  end.
+
+Definition disp_eqb (a b : list who * bool) : bool := list_eqb who_eqb (fst a) (fst b) && Bool.eqb (snd a) (snd b).
+
+(** id, facts, overridden methods, delegate, methods called, observed by the host (who ran each, did
+    the use fail), observed when the same calls are made inside the script *)
+Definition disp_case := (N * efacts * list str * bool * list str * (list who * bool) * (list who * bool))%type.
+
+Definition disp_mis_y (cs : list disp_case) : list N :=
+  flat_map (fun '(id, f, over, del, ms, impl, _) => if disp_eqb (y_dispatch f over del ms) impl then [] else [id]) cs.
+Definition disp_mis_g (cs : list disp_case) : list N :=
+  flat_map (fun '(id, _, over, del, ms, _, ref) => if disp_eqb (g_dispatch over del ms) ref then [] else [id]) cs.
